@@ -11,6 +11,13 @@ oracle      checks/planoracle.check_plan: every field of every hunk against the 
             character boundaries, summary counts — for plan / rename --dry-run / search / replace (literal, regex) x
             style, acronym, plural, atomic, exclude options x default / one / several / nested / repeated roots
 witnesses   corpus/C03/*.json replayed on the real binary
+
+Findings are recognised mechanically (`classify`): each known defect has a normaliser that undoes exactly that defect in a copy
+of the plan; a plan whose problems vanish under the normalisers of LISTED findings prints KNOWN-FINDING, anything else —
+including a defect that was repaired and is no longer listed in KNOWN_FINDINGS.txt (replace_line_relative_offsets: d278bf5,
+overlapping_roots_duplicate_hunks: 4d2e5a7) coming back — is a VIOLATION with the failing input.
+Speed: every differential stream is one harness process and one model process (requests batched over all cases), CLI cases run
+in 8 worker threads and are consumed in generation order (deterministic per seed).
 """
 import glob
 import json
@@ -24,6 +31,7 @@ SLUG_REL = "replace_line_relative_offsets"
 SLUG_ROOT = "replace_file_relative_to_root"
 SLUG_LOSSY = "replace_lossy_offsets"
 SLUG_DUP = "overlapping_roots_duplicate_hunks"
+SLUG_CTX = "invalid_utf8_line_context"
 
 
 # ------------------------------------------------------------------------------------------------------
@@ -121,6 +129,20 @@ def classify(ctx, plan, probs, case, cwd, files):
     for _ in range(4):
         if not probs:
             break
+        if SLUG_CTX not in known and not entry.startswith("replace") and \
+                all(p["clause"] in ("char_offset", "line_after") and p["hunk"] is not None for p in probs):
+            # char_offset / line_after computed by applying the RAW byte column to the lossily decoded line: only where
+            # invalid UTF-8 stands in front of the match on its line
+            def invalid_before(m):
+                data = files.get(planoracle.resolve(cwd, m["file"]))
+                if data is None:
+                    return False
+                ls = data.rfind(b"\n", 0, m["start"]) + 1
+                return not planoracle.is_valid_utf8(data[ls:m["start"]])
+            if all(invalid_before(plan["matches"][p["hunk"]]) for p in probs):
+                known.append(SLUG_CTX)
+                probs = []
+                continue
         if SLUG_DUP not in known and any(p["clause"] == "duplicate" for p in probs) and roots_overlap(cwd, roots):
             # a file reachable from two roots is planned once per root: drop exact repeats and judge the rest
             known.append(SLUG_DUP)
@@ -179,31 +201,50 @@ def classify(ctx, plan, probs, case, cwd, files):
 # correspondence of hunk geometry on a real plan
 
 def geom_requests(plan, cwd, files):
-    reqs, want = [], []
+    """one `hunkgeoms` request per file of the plan (all its hunks), with the expected items from the plan JSON"""
+    by = {}
     for m in plan["matches"]:
-        data = files.get(planoracle.resolve(cwd, m["file"]))
-        if data is None:
-            continue
-        reqs.append(" ".join(["hunkgeom", hexs(data), str(m["start"]), str(m["end"]), hexs(m["content"]), hexs(m.get("replace", ""))]))
-        want.append(":".join([str(m["line"]), str(m["byte_offset"]), str(m["char_offset"]), str(m["start"]), str(m["end"]),
-                              hexs(m["content"]), hexs(m.get("replace", "")), hexs(m.get("line_before", "")),
-                              hexs(m.get("line_after", ""))]))
+        path = planoracle.resolve(cwd, m["file"])
+        if files.get(path) is not None:
+            by.setdefault(path, []).append(m)
+    reqs, want = [], []
+    for path, ms in by.items():
+        f = ["hunkgeoms", hexs(files[path])]
+        w = []
+        for m in ms:
+            f += [str(m["start"]), str(m["end"]), hexs(m["content"]), hexs(m.get("replace", ""))]
+            w.append(":".join([str(m["line"]), str(m["byte_offset"]), str(m["char_offset"]), str(m["start"]), str(m["end"]),
+                               hexs(m["content"]), hexs(m.get("replace", "")), hexs(m.get("line_before", "")),
+                               hexs(m.get("line_after", ""))]))
+        reqs.append(" ".join(f))
+        want.append(w)
     return reqs, want
+
+
+def check_geom_batch(ctx, name, batch):
+    """batch: list of (describe, reqs, want).  One model process for everything."""
+    flat = [(d, r, w) for d, reqs, want in batch for r, w in zip(reqs, want)]
+    if not flat:
+        return True
+    got = common.run_model([r for _, r, _ in flat])
+    for (describe, r, w), g in zip(flat, got):
+        items = g[2:].split(" ; ") if g.startswith("G ") else []
+        ctx.cov["disagreements_checked"] += len(w)
+        if len(items) != len(w):
+            ctx.broke("correspondence", name, {"case": describe, "request": r[:300], "model": g[:300]})
+            return False
+        for wi, gi in zip(w, items):
+            f = gi.split()
+            ctx.count("geom:" + (f[1] if len(f) > 1 else f[0]))
+            if f[0] != wi:
+                ctx.broke("correspondence", name, {"case": describe, "impl(plan json)": wi, "model": gi})
+                return False
+    return True
 
 
 def check_geom(ctx, name, plan, cwd, files, describe):
     reqs, want = geom_requests(plan, cwd, files)
-    if not reqs:
-        return True
-    got = common.run_model(reqs)
-    ctx.cov["disagreements_checked"] += len(reqs)
-    for r, w, g in zip(reqs, want, got):
-        f = g.split()
-        ctx.count("geom:" + (f[2] if len(f) > 2 else f[1] if len(f) > 1 else "?"))
-        if len(f) < 2 or f[1] != w:
-            ctx.broke("correspondence", name, {"case": describe, "request": r[:600], "impl(plan json)": w, "model": g})
-            return False
-    return True
+    return check_geom_batch(ctx, name, [(describe, reqs, want)])
 
 
 # ------------------------------------------------------------------------------------------------------
@@ -283,22 +324,39 @@ def gen_cli_case(rng, idx, malformed=False, force_entry=None, force_roots=None):
 
 
 def eval_cli_case(ctx, case, geom=True):
-    """run one CLI case; returns (status, known slugs, remaining problems, plan)"""
+    """run one CLI case (no shared state: safe to call from worker threads);
+    returns (status, known slugs, remaining problems, plan, geometry batch entry or None)"""
     tree = tree_from_json(case["tree"])
     with common.scratch() as d:
         common.materialize(d, tree)
         files = file_snapshot(d)
         plan, status, info = run_cli_plan(d, case)
         if plan is None:
-            return status, [], [], None
+            return status, [], [], None, None
         probs = planoracle.check_plan(plan, d, files)
         known, rest = classify(ctx, plan, probs, case, d, files)
-        if geom and not probs and not case["entry"].startswith("replace"):
-            check_geom(ctx, "hunkgeom: plan JSON of the CLI vs Hunks.hunkGeomAt", plan, d, files,
-                       {"argv": case["argv"], "tree": case["tree"]})
+        g = None
+        if geom and not rest and not case["entry"].startswith("replace"):
+            reqs, want = geom_requests(plan, d, files)
+            g = ({"argv": case["argv"], "tree": case["tree"]}, reqs, want)
         for p in rest:
             p["detail"] = p["detail"].replace(d, "<root>")
-        return status, known, rest, plan
+        return status, known, rest, plan, g
+
+
+def scan_batch(cases, root):
+    """materialise every tree below `root`/<i>, run all `scanplan` requests in ONE harness process.
+    cases: list of dicts with tree/search/replace/styles.  Returns list of (dir, files, output fields)."""
+    reqs, dirs, snaps = [], [], []
+    for i, c in enumerate(cases):
+        d = os.path.join(root, "t%d" % i)
+        os.makedirs(d)
+        common.materialize(d, c["tree"])
+        dirs.append(d)
+        snaps.append(file_snapshot(d))
+        reqs.append(f"scanplan {hexs(d)} {hexs(c['search'])} {hexs(c['replace'])} {c['styles']}")
+    outs = common.run_impl(reqs) if reqs else []
+    return [(d, f, o.split()) for d, f, o in zip(dirs, snaps, outs)]
 
 
 # ------------------------------------------------------------------------------------------------------
@@ -350,7 +408,13 @@ def run(ctx):
     ctx.assumptions += ["regex / aho-corasick leftmost-first semantics as modelled in RModel.Model.Matcher (validated differentially)",
                         "user regexes of `replace` are not modelled: regex plans are checked by the oracle only",
                         "variants are non-empty (the variant table has no empty key)",
-                        "planner panics on invalid UTF-8 before a match (C16) are counted and skipped"]
+                        "planner panics (C16) are counted and skipped; since ac203f2 invalid UTF-8 in front of a match no longer panics and is in the malformed stream"]
+    import time as _t
+    t0 = _t.time()
+    ph = ctx.cov.setdefault("phase_seconds", {})
+
+    def mark(name, _s=[t0]):
+        now = _t.time(); ph[name] = round(now - _s[0], 1); _s[0] = now
     flag = run_translator(ctx)
     ctx.cov["replace_offsets_file_relative(extracted)"] = flag
     ctx.prove(PROP)
@@ -358,6 +422,7 @@ def run(ctx):
     if not ok:
         ctx.broke("build", "cargo", msg)
         return
+    mark("translate+prove+build")
     rng = ctx.rng
     T = ctx.thorough
 
@@ -365,6 +430,7 @@ def run(ctx):
     for path in sorted(glob.glob(os.path.join(common.ROOT, "corpus", "C03", "*.json"))):
         replay_file(ctx, path, quiet=True)
 
+    mark("corpus")
     # ---- (a) matcher ----------------------------------------------------------------------------------
     reqs, meta = [], []
     for _ in range(12000 if T else 2500):
@@ -393,6 +459,7 @@ def run(ctx):
         ctx.case(r)
         ctx.count("boundary:" + impl.split()[1])
 
+    mark("matcher")
     # ---- (b) literal planner --------------------------------------------------------------------------
     reqs, meta = [], []
     for i in range(3000 if T else 600):
@@ -404,6 +471,8 @@ def run(ctx):
                 data = b"\xff " + data           # invalid byte BEFORE matches: fine for the literal planner
             kind += "+invalid"
         pat = rng.choice([swords[0], gen.render("snake", swords), swords[0][:2], "value", "é", "the ", " "])
+        if len(data) > 4000 and pat in ("the ", " ", "value", swords[0][:2]):
+            pat = swords[0]            # a frequent pattern on a long line: thousands of hunks, each quoting the whole line twice
         repl = rng.choice([gen.render("snake", rwords), "", "X", pat + pat, "日本"])
         reqs.append(f"planlit {hexs(data)} {hexs(pat)} {hexs(repl)}")
         meta.append((data, pat, repl, kind))
@@ -445,48 +514,64 @@ def run(ctx):
             return
     ctx.sample({"op": "planlit", "request": reqs[1][:300], "impl": res[1][1][:300]})
 
-    # ---- (c) in-process plans ---------------------------------------------------------------------------
+    mark("planlit")
+    # ---- (c) in-process plans (one harness process, one model process) ------------------------------------
     n_scan = 1200 if T else 250
-    panics = 0
+    cases = []
     for i in range(n_scan):
         swords, rwords = gen.pick_terms(rng)
         malformed = i % 5 == 4
-        tree = gen_c03.gen_tree(rng, swords, malformed=malformed)
-        search = gen.render(rng.choice(["snake", "camel", "kebab", "pascal"]), swords)
-        repl = gen.render(rng.choice(["snake", "camel", "kebab"]), rwords)
-        styles = "-" if rng.random() < 0.7 else ",".join(rng.sample(["snake", "camel", "kebab", "pascal", "title", "dot", "screaming_snake"], 3))
-        with common.scratch() as d:
-            common.materialize(d, tree)
-            files = file_snapshot(d)
-            out = common.run_impl([f"scanplan {hexs(d)} {hexs(search)} {hexs(repl)} {styles}"])[0].split()
+        cases.append({"tree": gen_c03.gen_tree(rng, swords, malformed=malformed), "malformed": malformed,
+                      "search": gen.render(rng.choice(["snake", "camel", "kebab", "pascal"]), swords),
+                      "replace": gen.render(rng.choice(["snake", "camel", "kebab"]), rwords),
+                      "styles": "-" if rng.random() < 0.7 else
+                      ",".join(rng.sample(["snake", "camel", "kebab", "pascal", "title", "dot", "screaming_snake"], 3))})
+    panics = 0
+    batch = []
+    scan_known = set()
+    with common.scratch() as root:
+        for i, (c, (d, files, out)) in enumerate(zip(cases, scan_batch(cases, root))):
             if out[1] != "ok":
                 panics += out[1] == "panic"
                 ctx.count("scan:" + out[1])
                 continue
             plan = json.loads(unhex(out[2]))
             n = len(plan["matches"])
-            ctx.case(("scan", i, search, repl, styles, sorted(tree)), nontrivial=n > 0)
+            ctx.case(("scan", i, c["search"], c["replace"], c["styles"], sorted(c["tree"])), nontrivial=n > 0)
             ctx.count("scan:matches=%s" % ("0" if n == 0 else "1-3" if n < 4 else "4-9" if n < 10 else "10+"))
-            ctx.count("scan:malformed" if malformed else "scan:wellformed")
+            ctx.count("scan:malformed" if c["malformed"] else "scan:wellformed")
+            describe = {"op": "cli", "entry": "scanplan", "tree": tree_to_json(c["tree"]), "search": c["search"],
+                        "replace": c["replace"], "styles": c["styles"]}
             probs = planoracle.check_plan(plan, d, files)
+            known, probs = classify(ctx, plan, probs, {"entry": "scanplan", "roots": []}, d, files)
+            for k in known:
+                scan_known.add(k)
+                ctx.count("scan:known:" + k)
+                if (ctx.pid, k) not in ctx.findings and not probs:
+                    probs = [{"clause": k, "hunk": None, "detail": "finding `%s` reproduces but is not listed in KNOWN_FINDINGS.txt" % k}]
             if probs:
                 for p in probs:
                     p["detail"] = p["detail"].replace(d, "<root>")
-                ctx.violation("input", {"op": "cli", "entry": "scanplan", "tree": tree_to_json(tree), "search": search, "replace": repl,
-                                        "styles": styles}, expected="plan consistent with the files", observed=probs[:5],
+                ctx.violation("input", describe, expected="plan consistent with the files", observed=probs[:5],
                               note="scan_repository_multi: " + probs[0]["detail"])
                 return
-            if not check_geom(ctx, "hunkgeom: scan_repository_multi plan vs Hunks.hunkGeomAt", plan, d, files,
-                              {"tree": tree_to_json(tree), "search": search, "replace": repl, "styles": styles}):
-                break
+            reqs_g, want_g = geom_requests(plan, d, files)
+            batch.append((describe, reqs_g, want_g))
+    check_geom_batch(ctx, "hunkgeom: scan_repository_multi plan vs Hunks.hunkGeomAt", batch)
+    for k in sorted(scan_known):
+        ctx.known(k)
     ctx.cov["planner_panics_skipped(C16)"] = panics
 
-    # ---- (d) CLI entry points ---------------------------------------------------------------------------
+    mark("scanplan")
+    # ---- (d) CLI entry points (worker threads run the binary; results are consumed in generation order) -----
+    from concurrent.futures import ThreadPoolExecutor
     n_cli = 900 if T else 210
+    cli_cases = [gen_cli_case(rng, i, malformed=(i % 7 == 6)) for i in range(n_cli)]
+    with ThreadPoolExecutor(max_workers=8) as pool:
+        results = list(pool.map(lambda c: eval_cli_case(ctx, c), cli_cases))
     seen = set()
-    for i in range(n_cli):
-        case = gen_cli_case(rng, i, malformed=(i % 7 == 6))
-        status, known, rest, plan = eval_cli_case(ctx, case)
+    batch = []
+    for i, (case, (status, known, rest, plan, g)) in enumerate(zip(cli_cases, results)):
         n = len(plan["matches"]) if plan else 0
         ctx.case(("cli", i, case["argv"], sorted(case["tree"])), nontrivial=n > 0)
         ctx.count(f"cli:{case['entry']}:{status}")
@@ -497,16 +582,20 @@ def run(ctx):
             ctx.count("cli:known:" + k)
         unlisted = [k for k in known if (ctx.pid, k) not in ctx.findings]
         if unlisted and not rest:
-            rest = [{"clause": k, "hunk": None, "detail": "plan is inconsistent in the way of finding `%s`, which is not listed in KNOWN_FINDINGS.txt" % k}
-                    for k in unlisted]
+            rest = [{"clause": k, "hunk": None, "detail": "plan is inconsistent in the way of finding `%s`, which is not listed in "
+                     "KNOWN_FINDINGS.txt (a repaired defect is back, or a new one)" % k} for k in unlisted]
         if rest:
             ctx.violation("input", {"op": "cli", **case}, expected="plan consistent with the files", observed=rest[:6],
                           note=f"{case['entry']}: " + rest[0]["detail"])
             return
+        if g:
+            batch.append(g)
         if i < 3 and plan:
             ctx.sample({"op": "cli", "argv": case["argv"], "matches": n})
+    check_geom_batch(ctx, "hunkgeom: plan JSON of the CLI vs Hunks.hunkGeomAt", batch)
     for k in sorted(seen):
         ctx.known(k)
+    mark("cli")
 
 
 # ------------------------------------------------------------------------------------------------------
@@ -515,7 +604,7 @@ def replay_file(ctx, path, quiet=False):
     obj = json.load(open(path))
     case = obj.get("case", {})
     if isinstance(case, dict) and case.get("op") == "cli" and "argv" in case:
-        status, known, rest, plan = eval_cli_case(ctx, case, geom=False)
+        status, known, rest, plan, _ = eval_cli_case(ctx, case, geom=False)
         ctx.case(("corpus", os.path.basename(path)))
         ctx.count("corpus:" + os.path.basename(path) + ":" + (",".join(known) or ("clean" if not rest else "violation")))
         if not quiet:
